@@ -58,7 +58,8 @@ Obl(e) ==
     [] e.op = "FinalizeIndex" ->
          LET res == FinalizeOutcome(e.c, e.o, e.a, "b") IN <<
          <<"quiet", e.panic = "">>,
-         <<"verdict", e.ok <=> (res = "ok")>>,
+         \* (a client key presented in another encoding than the compressed one is not the client's identity)
+         <<"verdict", e.ok <=> (res = "ok" /\ e.ckform = "compressed")>>,
          <<"id-stable-and-injective", e.ok => BindOK(e.idx, IdxSpec(e.c, e.o))>>,
          <<"id-is-hkdf-reference", e.ok => e.ref_ok>>,
          <<"issuer-key-is-reference", e.brk_ref_ok>> >>
